@@ -145,10 +145,12 @@ class XhTape(BaseTape):
 
     def real(self, lo, hi):
         import z3
-        from crosshair.libimpl.builtinslib import RealBasedSymbolicFloat
+        from crosshair.libimpl.builtinslib import RealBasedSymbolicFloat, ModelingDirector
         from crosshair.statespace import context_statespace
         from crosshair.tracers import NoTracing
         with NoTracing():
+            # floats are modelled as reals on this path (stated assumption); literals are promoted accordingly
+            context_statespace().extra(ModelingDirector).global_representations[float] = RealBasedSymbolicFloat
             v = RealBasedSymbolicFloat(self._name('r'))
             context_statespace().add(z3.And(v.var >= lo, v.var <= hi))
             self.vals.append(['real', v])
